@@ -449,6 +449,94 @@ Record frame := mkFrame {
 Record inst := mkInst { i_label : string; i_entity : string;
                         i_assoc : list (string * width) }.   (* formal name, width of the actual *)
 
+(* ---- flow skeleton of a process body (for the verified must-assign analysis) -----------------
+   Only accesses to process VARIABLES are recorded.  IF c1 THEN A ELSIF c2 THEN B ELSE C END IF is
+   SBranch [([],A); (reads c2, B); ([],C)] true : the reads of c1 precede the SBranch, the guard of a
+   later branch is evaluated on the way to every branch behind it.  CASE: one branch per WHEN,
+   total iff WHEN OTHERS is present. *)
+Inductive stmt :=
+| SRead (x : string)
+| SWrite (x : string)
+| SBranch (b : branches) (total : bool)
+with branches :=
+| BNil
+| BCons (guard : list string) (body : stmts) (r : branches)
+with stmts :=
+| TNil
+| TCons (s : stmt) (r : stmts).
+
+Fixpoint stmts_of (l : list stmt) : stmts :=
+  match l with [] => TNil | x :: r => TCons x (stmts_of r) end.
+Fixpoint branches_of (l : list (list string * list stmt)) : branches :=
+  match l with [] => BNil | (g, b) :: r => BCons g (stmts_of b) (branches_of r) end.
+
+(* must-assign analysis; a = variables definitely written so far; None = some read may be unwritten *)
+Definition meet_opt (j : option (list string)) (a : list string) : option (list string) :=
+  match j with None => Some a | Some b => Some (filter (fun x => memb x a) b) end.
+
+Fixpoint must_s (a : list string) (s : stmt) : option (list string) :=
+  match s with
+  | SRead x => if memb x a then Some a else None
+  | SWrite x => Some (x :: a)
+  | SBranch b total =>
+      match must_b a b with
+      | None => None
+      | Some j => if total then (match j with Some r => Some r | None => Some a end) else Some a
+      end
+  end
+with must_b (a : list string) (b : branches) : option (option (list string)) :=
+  match b with
+  | BNil => Some None
+  | BCons g body r =>
+      if forallb (fun x => memb x a) g then
+        match must_t a body with
+        | None => None
+        | Some a1 =>
+            match must_b a r with
+            | None => None
+            | Some j => Some (meet_opt j a1)
+            end
+        end
+      else None
+  end
+with must_t (a : list string) (t : stmts) : option (list string) :=
+  match t with
+  | TNil => Some a
+  | TCons s r => match must_s a s with None => None | Some a1 => must_t a1 r end
+  end.
+
+(* specification side: the access traces of all control paths *)
+Inductive act := ARead (x : string) | AWrite (x : string).
+
+Fixpoint paths_s (s : stmt) : list (list act) :=
+  match s with
+  | SRead x => [[ARead x]]
+  | SWrite x => [[AWrite x]]
+  | SBranch b total => paths_b [] b total
+  end
+with paths_b (gpre : list string) (b : branches) (total : bool) : list (list act) :=
+  match b with
+  | BNil => if total then [] else [map ARead gpre]      (* no branch taken: only the guards were read *)
+  | BCons g body r =>
+      (map (fun p => (map ARead (gpre ++ g)%list ++ p)%list) (paths_t body) ++ paths_b (gpre ++ g)%list r total)%list
+  end
+with paths_t (t : stmts) : list (list act) :=
+  match t with
+  | TNil => [[]]
+  | TCons s r => flat_map (fun p1 => map (fun p2 => (p1 ++ p2)%list) (paths_t r)) (paths_s s)
+  end.
+
+(* along a trace every read of a variable is preceded by a write of it *)
+Fixpoint trace_ok (a : list string) (tr : list act) : bool :=
+  match tr with
+  | [] => true
+  | ARead x :: r => memb x a && trace_ok a r
+  | AWrite x :: r => trace_ok (x :: a) r
+  end.
+
+Record fframe := mkFF { ff_cur : list stmt; ff_brs : list (list string * list stmt); ff_guard : list string }.
+Record flowst := mkFl { fl_stack : list fframe; fl_done : list (list string * stmts) }.
+
 Record sstate := mkS {
   frames : list frame;
   assigned : list string;                 (* lower-cased variables definitely assigned *)
@@ -456,7 +544,8 @@ Record sstate := mkS {
   exported : list string;                 (* lower-cased names declared in packages *)
   insts : list inst;
   events : list event;                    (* newest first *)
-  n_uses : N; n_assign : N; n_widthchk : N; n_varreads : N; hides : list string
+  n_uses : N; n_assign : N; n_widthchk : N; n_varreads : N; hides : list string;
+  fl : flowst
 }.
 
 Inductive res (A : Type) := Ok (a : A) | Err (code : string) (ctx : list token).
@@ -483,13 +572,45 @@ Definition new_frame (k : fkind) (n : string) (ds : list decl) : frame :=
 
 Definition upd_frames (st : sstate) (fs : list frame) : sstate :=
   mkS fs (assigned st) (entities st) (exported st) (insts st) (events st)
-      (n_uses st) (n_assign st) (n_widthchk st) (n_varreads st) (hides st).
+      (n_uses st) (n_assign st) (n_widthchk st) (n_varreads st) (hides st) (fl st).
 Definition upd_assigned (st : sstate) (a : list string) : sstate :=
   mkS (frames st) a (entities st) (exported st) (insts st) (events st)
-      (n_uses st) (n_assign st) (n_widthchk st) (n_varreads st) (hides st).
+      (n_uses st) (n_assign st) (n_widthchk st) (n_varreads st) (hides st) (fl st).
 Definition add_event (st : sstate) (e : event) : sstate :=
   mkS (frames st) (assigned st) (entities st) (exported st) (insts st) (e :: events st)
-      (n_uses st) (n_assign st) (n_widthchk st) (n_varreads st) (hides st).
+      (n_uses st) (n_assign st) (n_widthchk st) (n_varreads st) (hides st) (fl st).
+
+
+Definition upd_fl (st : sstate) (f : flowst) : sstate :=
+  mkS (frames st) (assigned st) (entities st) (exported st) (insts st) (events st)
+      (n_uses st) (n_assign st) (n_widthchk st) (n_varreads st) (hides st) f.
+
+Definition flow_push (st : sstate) : sstate :=
+  upd_fl st (mkFl (mkFF [] [] [] :: fl_stack (fl st)) (fl_done (fl st))).
+Definition flow_add (st : sstate) (l : list stmt) : sstate :=   (* l in program order *)
+  match fl_stack (fl st) with
+  | f :: r => upd_fl st (mkFl (mkFF (rev l ++ ff_cur f)%list (ff_brs f) (ff_guard f) :: r) (fl_done (fl st)))
+  | [] => st
+  end.
+(* close the current branch, open the next one with the given guard reads *)
+Definition flow_next (st : sstate) (guard : list string) : sstate :=
+  match fl_stack (fl st) with
+  | f :: r => upd_fl st (mkFl (mkFF [] ((ff_guard f, rev (ff_cur f)) :: ff_brs f) guard :: r) (fl_done (fl st)))
+  | [] => st
+  end.
+Definition flow_end (st : sstate) (total : bool) : sstate :=
+  match fl_stack (fl st) with
+  | f :: p :: r =>
+      let brs := rev ((ff_guard f, rev (ff_cur f)) :: ff_brs f) in
+      upd_fl st (mkFl (mkFF (SBranch (branches_of brs) total :: ff_cur p) (ff_brs p) (ff_guard p) :: r)
+                      (fl_done (fl st)))
+  | _ => st
+  end.
+Definition flow_finish (st : sstate) (vars : list string) : sstate :=
+  match fl_stack (fl st) with
+  | f :: r => upd_fl st (mkFl r ((vars, stmts_of (rev (ff_cur f))) :: fl_done (fl st)))
+  | [] => st
+  end.
 
 Fixpoint find_decl (lc : string) (ds : list decl) : option decl :=
   match ds with
@@ -533,7 +654,7 @@ Definition declare (st : sstate) (d : decl) (ctx : list token) : res sstate :=
           let st2 := mkS (frames st1) (assigned st1) (entities st1)
                          (match f_kind f with FPackage => lc :: exported st1 | _ => exported st1 end)
                          (insts st1) (events st1) (n_uses st1) (n_assign st1) (n_widthchk st1)
-                         (n_varreads st1) h2 in
+                         (n_varreads st1) h2 (fl st1) in
           Ok st2
       end
   end.
@@ -647,10 +768,10 @@ Definition is_variable (st : sstate) (x : string) : bool :=
 
 Definition bump_uses (st : sstate) (n v : N) : sstate :=
   mkS (frames st) (assigned st) (entities st) (exported st) (insts st) (events st)
-      (n_uses st + n) (n_assign st) (n_widthchk st) (n_varreads st + v) (hides st).
+      (n_uses st + n) (n_assign st) (n_widthchk st) (n_varreads st + v) (hides st) (fl st).
 
 (* all identifiers known; variables among them already assigned *)
-Definition check_reads (st : sstate) (toks : list token) (ctx : list token) : res sstate :=
+Definition check_reads_core (st : sstate) (toks : list token) (ctx : list token) : res sstate :=
   let ids := used_ids None toks in
   match find (fun x => negb (known st x)) ids with
   | Some _ => Err "use of an identifier that is not declared (declared-before-use)" ctx
@@ -665,6 +786,13 @@ Definition check_reads (st : sstate) (toks : list token) (ctx : list token) : re
       | None => Ok (bump_uses st (N.of_nat (length ids)) (N.of_nat (length vars)))
       end
   end.
+
+Definition var_reads (st : sstate) (toks : list token) : list string :=
+  map lower (filter (is_variable st) (used_ids None toks)).
+
+Definition check_reads (st : sstate) (toks : list token) (ctx : list token) : res sstate :=
+  do st1 <- check_reads_core st toks ctx;
+  Ok (flow_add st1 (map SRead (var_reads st toks))).
 
 Definition width_of (st : sstate) (x : string) : width :=
   match find_frames (lower x) (frames st) with Some d => d_width d | None => WUnknown end.
@@ -722,7 +850,7 @@ Definition join_with (j : option (list string)) (cur : list string) : list strin
 Definition bump_assign (st : sstate) (w : bool) : sstate :=
   mkS (frames st) (assigned st) (entities st) (exported st) (insts st) (events st)
       (n_uses st) (n_assign st + 1) (if w then n_widthchk st + 1 else n_widthchk st)
-      (n_varreads st) (hides st).
+      (n_varreads st) (hides st) (fl st).
 
 (* target <= expr   |   target := expr   (target = name or name(index...)) *)
 Definition handle_assign (st : sstate) (chunk : list token) : res sstate :=
@@ -754,7 +882,7 @@ Definition handle_assign (st : sstate) (chunk : list token) : res sstate :=
                   let chk := match wt, we with WUnknown, _ | _, WUnknown => false | _, _ => true end in
                   let st2 := bump_assign st1 chk in
                   Ok (if isvar && match idx with [] => true | _ => false end
-                      then upd_assigned st2 (lower n :: assigned st2) else st2)
+                      then flow_add (upd_assigned st2 (lower n :: assigned st2)) [SWrite (lower n)] else st2)
           end
       | _ => Err "statement not understood" chunk
       end
@@ -785,7 +913,8 @@ Definition next_branch (st : sstate) (is_else : bool) (ctx : list token) : res s
           let j := if f_first f then f_join f else Some (join_with (f_join f) (assigned st)) in
           let f' := mkFrame (f_kind f) (f_name f) (f_decls f) (f_begun f) (f_pre f) j
                             (f_else f || is_else) false in
-          Ok (upd_assigned (set_top st f') (f_pre f))
+          let st' := upd_assigned (set_top st f') (f_pre f) in
+          Ok (match f_kind f, f_first f with FCase, true => st' | _, _ => flow_next st' [] end)
       | _ => Err "ELSE/ELSIF/WHEN outside IF/CASE" ctx
       end
   | None => Err "ELSE/ELSIF/WHEN outside IF/CASE" ctx
@@ -803,7 +932,7 @@ Definition end_branching (st : sstate) (k : fkind) (ctx : list token) : res ssta
       if match f_kind f, k with FIf, FIf | FCase, FCase => true | _, _ => false end then
         let j := join_with (f_join f) (assigned st) in
         let a := if f_else f then j else f_pre f in
-        Ok (upd_assigned (pop_quiet st) a)
+        Ok (flow_end (upd_assigned (pop_quiet st) a) (f_else f))
       else Err "END IF / END CASE does not match" ctx
   | None => Err "END IF / END CASE does not match" ctx
   end.
@@ -841,7 +970,7 @@ Fixpoint assoc_all (st : sstate) (items : list (list token)) (acc : list (string
 
 Definition add_inst (st : sstate) (i : inst) : sstate :=
   mkS (frames st) (assigned st) (entities st) (exported st) (i :: insts st) (events st)
-      (n_uses st) (n_assign st) (n_widthchk st) (n_varreads st) (hides st).
+      (n_uses st) (n_assign st) (n_widthchk st) (n_varreads st) (hides st) (fl st).
 
 (* label : [entity work .] name [generic map (...)] port map (...) *)
 Definition handle_inst (st : sstate) (label : string) (rest : list token) (chunk : list token)
@@ -914,7 +1043,7 @@ Definition handle_decl (st : sstate) (chunk : list token) : res sstate :=
   | TKw Kfunction :: TId f :: _ =>      (* package declarations of the fixed helper functions *)
       if negb (ident_ok f) then Err "declared identifier is illegal or reserved" chunk
       else Ok (mkS (frames st) (assigned st) (entities st) (lower f :: exported st) (insts st) (events st)
-                   (n_uses st) (n_assign st) (n_widthchk st) (n_varreads st) (hides st))
+                   (n_uses st) (n_assign st) (n_widthchk st) (n_varreads st) (hides st) (fl st))
   | _ => Err "declaration not understood" chunk
   end.
 
@@ -931,7 +1060,7 @@ Definition handle_process (st : sstate) (label : option string) (rest : list tok
                         end in
   let sens' := match sens with [TKw Kall] => [] | _ => sens end in
   do st2 <- check_reads st1 sens' chunk;
-  let st3 := upd_assigned (push st2 (new_frame FProcess (match label with Some l => l | None => "" end) [])) [] in
+  let st3 := flow_push (upd_assigned (push st2 (new_frame FProcess (match label with Some l => l | None => "" end) [])) []) in
   handle_decl st3 rest1.
 
 Definition set_begun (st : sstate) : sstate :=
@@ -943,7 +1072,7 @@ Definition set_begun (st : sstate) : sstate :=
 
 Definition add_entity (st : sstate) (n : string) (ds : list decl) : sstate :=
   mkS (frames st) (assigned st) ((lower n, ds) :: entities st) (exported st) (insts st) (events st)
-      (n_uses st) (n_assign st) (n_widthchk st) (n_varreads st) (hides st).
+      (n_uses st) (n_assign st) (n_widthchk st) (n_varreads st) (hides st) (fl st).
 
 Fixpoint find_entity (lc : string) (es : list (string * list decl)) : option (list decl) :=
   match es with
@@ -982,7 +1111,13 @@ Definition handle_end (st : sstate) (rest : list token) (chunk : list token) : r
                        | _ => st
                        end in
             let st2 := pop st1 in
-            Ok (match f_kind f with FProcess => upd_assigned st2 [] | _ => st2 end)
+            Ok (match f_kind f with
+                | FProcess =>
+                    flow_finish (upd_assigned st2 [])
+                      (map (fun d => lower (d_name d))
+                           (filter (fun d => match d_class d with CVariable => true | _ => false end) (f_decls f)))
+                | _ => st2
+                end)
       end
   end.
 
@@ -1029,9 +1164,14 @@ Definition handle (st : sstate) (chunk : list token) (term : token) : res sstate
       | TKw Kif :: cond =>
           if negb (in_statements st) then Err "IF outside statement part" chunk else
           do st1 <- check_reads st cond chunk;
-          Ok (push_quiet st1 (mkFrame FIf "" [] true (assigned st1) None false true))
+          Ok (flow_push (push_quiet st1 (mkFrame FIf "" [] true (assigned st1) None false true)))
       | TKw Kelsif :: cond =>
-          do st1 <- next_branch st false chunk; check_reads st1 cond chunk
+          do st1 <- next_branch st false chunk;
+          do st2 <- check_reads_core st1 cond chunk;
+          Ok (match fl_stack (fl st2) with
+              | f :: r => upd_fl st2 (mkFl (mkFF (ff_cur f) (ff_brs f) (var_reads st2 cond) :: r) (fl_done (fl st2)))
+              | [] => st2
+              end)
       | _ => Err "unexpected tokens before THEN" chunk
       end
     else if is_kw "else" term then
@@ -1055,7 +1195,7 @@ Definition handle (st : sstate) (chunk : list token) (term : token) : res sstate
       | TKw Kcase :: e =>
           if negb (in_statements st) then Err "CASE outside statement part" chunk else
           do st1 <- check_reads st e chunk;
-          Ok (push_quiet st1 (mkFrame FCase "" [] true (assigned st1) None false true))
+          Ok (flow_push (push_quiet st1 (mkFrame FCase "" [] true (assigned st1) None false true)))
       | _ => Err "unexpected tokens before IS" chunk
       end
     else (* terminator ; *)
@@ -1117,7 +1257,7 @@ Fixpoint scan (st : sstate) (head : option token) (cur : list token) (depth : na
 (* ------------------------------------------------------------------ whole designs *)
 
 Definition init_sstate : sstate :=
-  mkS [new_frame FLib "" []] [] [] [] [] [EOpen] 0 0 0 0 [].
+  mkS [new_frame FLib "" []] [] [] [] [] [EOpen] 0 0 0 0 [] (mkFl [] []).
 
 Definition has_package (toks : list token) : bool := existsb (is_kw "package") toks.
 
@@ -1183,7 +1323,8 @@ Definition check_insts (st : sstate) : res (N * N) :=   (* (checked, unknown ent
 
 Record summary := mkSummary {
   sm_decls : N; sm_regions : N; sm_uses : N; sm_assign : N; sm_widthchk : N; sm_varreads : N;
-  sm_insts : N; sm_insts_unknown : N; sm_hides : list string
+  sm_insts : N; sm_insts_unknown : N; sm_hides : list string;
+  sm_flows : list (list string * stmts)
 }.
 
 Definition order_files (files : list (list token)) : list (list token) :=
@@ -1195,6 +1336,9 @@ Definition sites_of (toks : list token) : list string :=
 Definition sites_ok (files : list (list token)) : bool :=
   forallb (fun f => match decl_sites None f with Some l => forallb ident_ok l | None => false end) files.
 
+Definition flows_ok (fs : list (list string * stmts)) : bool :=
+  forallb (fun vp => match must_t [] (snd vp) with Some _ => true | None => false end) fs.
+
 Definition check_design_tokens (files : list (list token)) : res summary :=
   do st <- check_files init_sstate (order_files files);
   let evs := rev (events st) in
@@ -1202,12 +1346,14 @@ Definition check_design_tokens (files : list (list token)) : res summary :=
   else if negb (events_ok evs) then Err "event log rejected (duplicate / illegal identifier in a region)" []
   else if negb (list_eqb (event_decls evs) (flat_map sites_of (order_files files)))
   then Err "declaration sites and scanner log differ" []
+  else if negb (flows_ok (fl_done (fl st)))
+  then Err "process variable read before it is written (flow skeleton rejected)" []
   else
     do p <- check_insts st;
     let '(a, b) := p in
     Ok (mkSummary (N.of_nat (length (event_decls evs)))
                   (N.of_nat (length (filter (fun e => match e with EOpen | EReopen _ => true | _ => false end) evs)))
-                  (n_uses st) (n_assign st) (n_widthchk st) (n_varreads st) a b (hides st)).
+                  (n_uses st) (n_assign st) (n_widthchk st) (n_varreads st) a b (hides st) (fl_done (fl st))).
 
 Definition check_design (files : list string) : res summary :=
   check_design_tokens (map lex files).
